@@ -212,6 +212,116 @@ def resRunHookBodyData (data : Option Bytes) (c : Conn) : R :=
     runCallbackN t.txResBodyHook .txResponseBodyData (some uid) data false 0 c >>? fun c =>
     runCallback .responseBodyData (some uid) data false c
 
+/-! ### the decompression driver (htp_decompressors.c) around an abstract inflate() -/
+
+def Z_OK : Int := 0
+def Z_STREAM_END : Int := 1
+def Z_DATA_ERROR : Int := -3
+
+/-- htp_gzip_decompressor_probe: bytes of a gzip header with extensions to skip -/
+def gzipProbe (d : Bytes) : Nat :=
+  if d.length < 4 then 0 else
+  let f := d.getD 3 0
+  let consumed :=
+    if d.getD 0 0 == 0x1f && d.getD 1 0 == 0x8b && f != 0 then
+      if f &&& 8 != 0 || f &&& 16 != 0 then 10 + ((d.drop 10).takeWhile (· != 0)).length + 1
+      else if f &&& 2 != 0 then 12
+      else 10
+    else 0
+  if consumed > d.length then 0 else consumed
+
+/-- the bomb test of the decompressor callback: more than the configured limit AND more than 2048 times the compressed bytes -/
+def bombExceeded (limit entity message : Nat) : Bool := entity > limit && entity > COMPRESSION_BOMB_RATIO * message
+
+/-- htp_tx_res_process_body_data_decompressor_callback: account, run the body hooks, check for a bomb
+    (the time-based check is outside the model: the limit is assumed not to be reached) -/
+def decFinalCallback (uid : Nat) (data : Option Bytes) (c : Conn) : R :=
+  let n := (data.map (·.length)).getD 0
+  let c := c.modTx uid (fun t => { t with resEntityLen := t.resEntityLen + n })
+  let (c, rc) := resRunHookBodyData data c
+  if rc != .ok then (c, .error) else
+  let t := (c.findTx uid).getD { uid := uid }
+  if bombExceeded c.bombLimit t.resEntityLen t.resMessageLen then (c, .error)
+  else (c, .ok)
+
+mutual
+/-- where a layer sends its output: the next layer (when there is one and this layer is still initialised) or the callback -/
+def decSend (uid : Nat) : Nat → Bool → List Dec → Option Bytes → Conn → List Dec × R
+  | 0, _, rest, _, c => (rest, ({ c with unsupported := true }, .error))
+  | fuel + 1, useNext, rest, data, c =>
+    if useNext && !rest.isEmpty then decompress uid fuel rest data c
+    else (rest, decFinalCallback uid data c)
+
+/-- the `while (avail_in != 0)` loop of htp_gzip_decompressor_decompress on chunk `d` with `inp` still unread -/
+def decLoop (uid : Nat) (d : Bytes) : Nat → Dec → List Dec → Bytes → Conn → List Dec × R
+  | 0, drec, rest, _, c => (drec :: rest, ({ c with unsupported := true }, .error))
+  | fuel + 1, drec, rest, inp, c =>
+    if inp.isEmpty then (drec :: rest, (c, .ok)) else
+    -- a full buffer is sent on first
+    let flushed : Option (Dec × List Dec × Conn) :=
+      if drec.buf.length == GZIP_BUF_SIZE then
+        let (rest, (c, rc)) := decSend uid fuel (drec.kind != 0) rest (some drec.buf) c
+        if rc != .ok then none else some ({ drec with buf := [] }, rest, c)
+      else some (drec, rest, c)
+    match flushed with
+    | none =>
+      -- callback failed: htp_gzip_decompressor_end, return its code (re-run to get the state it left)
+      let (rest, (c, rc)) := decSend uid fuel (drec.kind != 0) rest (some drec.buf) c
+      ({ drec with kind := 0 } :: rest, (c, rc))
+    | some (drec, rest, c) =>
+    if drec.kind == 4 then (drec :: rest, ({ c with unsupported := true }, .ok)) else   -- LZMA: not modelled
+    if drec.kind == 0 then (drec :: rest, (c, .error)) else    -- "no initialization means previous error on stream"
+    match c.zoracle with
+    | [] => (drec :: rest, ({ c with unsupported := true }, .ok))     -- no recorded inflate result: outside the model
+    | z :: zs =>
+      let c := { c with zoracle := zs }
+      let inp := inp.drop z.consumed
+      let drec := { drec with buf := drec.buf ++ z.produced }
+      let rc := if drec.buf.length > 0 && z.rc == Z_DATA_ERROR then Z_STREAM_END else z.rc
+      if rc == Z_STREAM_END then
+        let (rest, (c, crc)) := decSend uid fuel (drec.kind != 0) rest (some drec.buf) c
+        if crc != .ok then ({ drec with kind := 0 } :: rest, (c, crc))
+        else ({ drec with buf := [] } :: rest, (c, .ok))       -- the rest of the input is dropped ("TODO Handle trailer")
+      else if rc != Z_OK then
+        -- inflateEnd; htp_gzip_decompressor_restart
+        let restarted : Option (Dec × Nat) :=
+          if drec.restart < 3 then
+            if drec.restart == 0 then some ({ drec with restart := 1 }, gzipProbe d)
+            else if drec.kind == 3 then some ({ drec with kind := 2, restart := drec.restart + 1 }, gzipProbe d)
+            else if drec.kind == 2 then some ({ drec with kind := 3, restart := drec.restart + 1 }, gzipProbe d)
+            else none
+          else none
+        match restarted with
+        | some (drec, consumed) =>
+          if consumed > d.length then (drec :: rest, (c, .error))
+          else decLoop uid d fuel drec rest (d.drop consumed) c
+        | none =>
+          -- every attempt failed: hand the raw chunk to the callback and keep passing data through
+          let drec := { drec with kind := 0 }
+          let (c, crc) := decFinalCallback uid (some d) c
+          if crc != .ok then (drec :: rest, (c, .error))
+          else ({ drec with buf := [], passthrough := true } :: rest, (c, .ok))
+      else decLoop uid d fuel drec rest inp c
+
+/-- htp_gzip_decompressor_decompress on the chain `drec :: rest` -/
+def decompress (uid : Nat) : Nat → List Dec → Option Bytes → Conn → List Dec × R
+  | 0, ds, _, c => (ds, ({ c with unsupported := true }, .error))
+  | _ + 1, [], _, c => ([], (c, .error))
+  | fuel + 1, drec :: rest, data, c =>
+    if drec.passthrough then
+      let (c, rc) := decFinalCallback uid data c
+      (drec :: rest, (c, if rc != .ok then .error else .ok))
+    else
+    match data with
+    | none =>
+      -- end of the stream: what is in the buffer goes out (NULL when there is nothing)
+      let dout := if drec.buf.length > 0 then some drec.buf else none
+      let (rest, (c, rc)) := decSend uid fuel (drec.kind != 0) rest dout c
+      if rc != .ok && !(drec.kind != 0 && !rest.isEmpty) then ({ drec with kind := 0 } :: rest, (c, rc))
+      else (drec :: rest, (c, rc))
+    | some d => decLoop uid d fuel drec rest d c
+end
+
 /-- htp_tx_res_process_body_data_ex -/
 def resProcessBodyData (data : Option Bytes) (c : Conn) : R :=
   match c.out.tx with
@@ -221,7 +331,12 @@ def resProcessBodyData (data : Option Bytes) (c : Conn) : R :=
     let c := c.modTx uid (fun t => { t with resMessageLen := t.resMessageLen + n })
     let t := c.outTx
     if t.resContentEncodingProcessing == 2 || t.resContentEncodingProcessing == 3 || t.resContentEncodingProcessing == 4 then
-      ({ c with unsupported := true }, .ok)
+      if c.outDecs.isEmpty then (c, .error) else
+      if !c.zused then ({ c with unsupported := true }, .ok) else
+      -- the return value of the decompressor is ignored
+      let (ds, (c, _)) := decompress uid (4 * n + 64) c.outDecs data c
+      let c := { c with outDecs := if data.isNone then [] else ds }
+      (c, .ok)
     else if t.resContentEncodingProcessing == 1 then
       let c := c.modTx uid (fun t => { t with resEntityLen := t.resEntityLen + n })
       let (c, rc) := resRunHookBodyData data c
@@ -521,6 +636,46 @@ def responseNeedsDecompressor (cfg : Cfg) (t : Tx) : Nat × Bool :=
     else if is (b!"inflate") then (1, false)
     else (1, cfg.responseDecompression)    -- ce_multi_comp: token list is examined (model: unsupported)
 
+/-- a separator of the Content-Encoding token list (get_token(.., ", ", ..)) -/
+def ceSep (b : UInt8) : Bool := b == 0x2c || b == 0x20
+
+/-- get_token: skip leading separators; none when nothing is left, else the token up to the next separator -/
+def getToken (input : Bytes) : Option Bytes :=
+  let skipped := (input.takeWhile ceSep).length
+  if skipped ≥ input.length then none else some ((input.drop skipped).takeWhile (fun b => !ceSep b))
+
+/-- the coding a token of a multi-valued Content-Encoding stands for (1 = none / unknown) -/
+def ceTokenType (tok : Bytes) : Nat :=
+  if (Bstr.indexOfMemNocase tok (b!"gzip")).isSome then 2
+  else if (Bstr.indexOfMemNocase tok (b!"deflate")).isSome then 3
+  else if tok == (b!"lzma") then 4
+  else 1
+
+/-- the token loop of htp_tx_state_response_headers (slow path): the codings for which a decompressor is created, in order.
+    `layers` counts every token when a limit is configured; lzma is only accepted among the first `lzmaLimit` tokens.
+    NOTE (mirrored quirk): the input advances by token length + 1 from where it was, not from where the token started. -/
+def ceChainLoop (layerLimit lzmaLimit : Int) : Nat → Bytes → Int → Int → List Nat → List Nat
+  | 0, _, _, _, acc => acc
+  | fuel + 1, input, layers, nblzma, acc =>
+    if input.isEmpty then acc else
+    match getToken input with
+    | none => acc
+    | some tok =>
+      let layers := if layerLimit != 0 then layers + 1 else layers
+      if layerLimit != 0 && layers > layerLimit then acc else
+      let nblzma := nblzma + 1
+      let ty := ceTokenType tok
+      if ty == 4 && nblzma > lzmaLimit then acc else
+      let acc := if ty != 1 then acc ++ [ty] else acc
+      if tok.length + 1 ≥ input.length then acc
+      else ceChainLoop layerLimit lzmaLimit fuel (input.drop (tok.length + 1)) layers nblzma acc
+
+def ceChain (cfg : Cfg) (value : Bytes) : List Nat := ceChainLoop cfg.layerLimit cfg.lzmaLayerLimit (value.length + 1) value 0 0 []
+
+/-- htp_gzip_decompressor_create -/
+def decCreate (cfg : Cfg) (ty : Nat) : Dec :=
+  { kind := ty, passthrough := ty == 4 && !(cfg.lzmaLayerLimit > 0) }
+
 /-- htp_tx_state_response_headers -/
 def txStateResponseHeaders (cfg : Cfg) (uid : Nat) (c : Conn) : R :=
   let t := (c.findTx uid).getD { uid := uid }
@@ -529,7 +684,17 @@ def txStateResponseHeaders (cfg : Cfg) (uid : Nat) (c : Conn) : R :=
                                           resContentEncodingProcessing := if cfg.responseDecompression then enc else 1 })
   resReceiverFinalizeClear c >>? fun c =>
   runCallback .responseHeaders (some uid) none false c >>? fun c =>
-  if needs then ({ c with unsupported := true, outDecompressor := true }, .ok) else (c, .ok)
+  if needs then
+    -- an earlier chain is destroyed; then one decompressor (fast path) or one per recognised token (slow path)
+    if enc != 1 then ({ c with outDecs := [decCreate cfg enc], outDecompressor := true }, .ok)
+    else
+      let value := ((getHeaderC t.resHeaders (b!"content-encoding")).map (·.value)).getD []
+      let chain := ceChain cfg value
+      let c := { c with outDecs := chain.map (decCreate cfg), outDecompressor := true }
+      match chain with
+      | [] => (c, .ok)
+      | ty :: _ => (c.modTx uid (fun t => { t with resContentEncodingProcessing := ty }), .ok)
+  else (c, .ok)
 
 /-- htp_tx_state_response_start -/
 def txStateResponseStart (uid : Nat) (c : Conn) : R :=
